@@ -173,6 +173,21 @@ def run(tier):
                 report.fail({"site": "gate", "kind": "full-false-not-stripped"},
                             {"input": text, "full_false": sF, "without_the_modification": stripped, "expected": ref,
                              "problem": "with full=False an input whose only obstacle is an unsupported modification must give the molecule without it"})
+    # for any accepted string at all (random sentences of the grammar): what converts under full=True converts to the
+    # same molecule under full=False
+    import gen as _G
+    gs = _G.grammar_sentences(r, 50 if tier == "quick" else 600)
+    go = C.run_impl_parallel("convert_many", [{"iupac": x, "kw": {"full": f_}} for x in gs for f_ in (True, False)])
+    n_gs = 0
+    for i, x in enumerate(gs):
+        a_, b_ = go[2 * i]["smiles"] or "", go[2 * i + 1]["smiles"] or ""
+        if a_:
+            n_gs += 1
+            report.case("grammar:" + x, True)
+            if not b_ or not orc.same(a_, b_):
+                report.fail({"site": "gate", "kind": "full-false-differs"},
+                            {"input": x, "full_true": a_, "full_false": b_,
+                             "problem": "an input that converts under full=True gives something else under full=False"})
     orc.close()
     if broken and not report.violations:
         report.fail({"site": "proof", "kind": "obligation-broken"},
